@@ -9,7 +9,7 @@ Open Scope Z_scope.
 Lemma impl_limits :
   forallb (fun r => let '(w, b, mv, c, soft, hard) := r in
                     let '(s, h) := limits w b mv c in (s =? soft) && (h =? hard)) g_limits = true /\
-  (336 <=? length g_limits)%nat = true.
+  (672 <=? length g_limits)%nat = true.
 Proof. split; vm_compute; reflexivity. Qed.
 
 Definition entry_pd (ply depth : Z) : entry := fresh_entry 0%N 0%N ply depth zero_score no_move.
